@@ -50,6 +50,9 @@ def enc_item(it):
         if tgt == "S" or tgt == "W":
             return head + tgt
         return head + f"L {len(tgt[1])}" + "".join(f" {n}" for n in tgt[1])
+    if t == "L":
+        _, pub, name, rhs = it
+        return f"L {int(pub)} {name} " + enc_expr(rhs)
     raise ValueError(it)
 
 
